@@ -51,8 +51,8 @@ func gen(tier string) []proto.Item {
 						if !vi.Parallel {
 							continue
 						}
-						if vi.Kind == "sack" && (form == "sack3" || form == "sackTS" || form == "synack") {
-							continue
+						if vi.Kind == "sack" && (form == "sack3" || form == "sackTS" || form == "synack") && !(kind == "sack-opt-len" && form != "synack") {
+							continue // (sack-opt-len keeps every complete block: the packet is still an acknowledgement WITH blocks)
 						}
 						if form == "synack" || form == "rst" {
 							continue
